@@ -600,7 +600,17 @@ fn run_case(c: &Value) -> Value {
             if b < bound && bound > 1 && b > 0 {
                 continue; // 0, then the full bound (intermediate bounds are subsumed; 0 gives the shortest counterexample first)
             }
-            let st = sched::explore(b, cap, &mut run, &mut judge);
+            // wall-clock budget per scenario (a tree whose synchronisation makes the schedule space much
+            // larger than the pinned tree's must still end; the scenario is then reported as capped)
+            let per_case = std::time::Duration::from_secs(if THOROUGH.load(Ordering::Relaxed) { 600 } else { 25 });
+            let shard_deadline = SHARD_DEADLINE.get().copied();
+            let mut deadline = std::time::Instant::now() + per_case;
+            if let Some(sd) = shard_deadline {
+                if sd < deadline {
+                    deadline = sd;
+                }
+            }
+            let st = sched::explore_until(b, cap, Some(deadline), &mut run, &mut judge);
             total.schedules += st.schedules;
             total.steps += st.steps;
             total.max_preemptions_used = total.max_preemptions_used.max(st.max_preemptions_used);
@@ -648,6 +658,10 @@ fn compositions(k: usize, parts: usize) -> Vec<Vec<usize>> {
     }
     v
 }
+
+/// end of this shard's wall-clock budget (after it every remaining scenario runs its default schedule only)
+static SHARD_DEADLINE: std::sync::OnceLock<std::time::Instant> = std::sync::OnceLock::new();
+static THOROUGH: std::sync::atomic::AtomicBool = std::sync::atomic::AtomicBool::new(false);
 
 fn cases(check: &str, tier: &str) -> Vec<Value> {
     let mut v = Vec::new();
@@ -859,6 +873,10 @@ fn main() {
         cases(&check, &tier)
     };
     let mine: Vec<&Value> = if replay.is_some() { all.iter().collect() } else { all.iter().enumerate().filter(|(i, _)| i % shard.1 == shard.0).map(|(_, c)| c).collect() };
+    THOROUGH.store(tier == "thorough", Ordering::Relaxed);
+    if replay.is_none() {
+        let _ = SHARD_DEADLINE.set(std::time::Instant::now() + std::time::Duration::from_secs(if tier == "thorough" { 3000 } else { 150 }));
+    }
     let outcomes = isolate::run(mine.len(), 1, 7_200_000, |i| (vkit::serde_json::to_vec(&run_case(mine[i])).unwrap(), false));
     let mut tot = json!({"schedules": 0u64, "steps": 0u64, "states": 0u64, "blocked_lock_schedules": 0u64, "capped_cases": 0u64, "distinct_outcomes_max": 0u64, "max_preemptions": 0u64});
     let mut viols: Vec<Value> = Vec::new();
